@@ -628,3 +628,23 @@ Definition taskwise (I : instance) : Prop :=
 Definition startable (I : instance) : Prop :=
   forall t, In t (i_tasks I) -> enforce_for I t = true -> lbv I t <= t_deadline t.
 Definition caps_nonneg (I : instance) : Prop := forall w rq, In w (wenum I) -> In rq (w_res (snd w)) -> 0 <= snd rq.
+
+(* ---- the same with co-decided parents and children (whole graphs offered together): the unplaced tasks need start
+   values too (their start variables are bound by their deadline rows and by the precedence rows) *)
+Definition overl_sv (I : instance) (p : plan) (sv : task -> Z) (x y : task) : bool :=
+  (sv x <=? sv y + Rv I p y) && (sv y <=? sv x + Rv I p x).
+Definition no_three_way_sv (I : instance) (p : plan) (sv : task -> Z) : Prop :=
+  forall t1 t2 t3, In t1 (i_tasks I) -> In t2 (i_tasks I) -> In t3 (i_tasks I) ->
+  placed_in I p t2 = true -> placed_in I p t3 = true -> w_in I p t2 = w_in I p t3 ->
+  overl_sv I p sv t1 t2 = true -> overl_sv I p sv t1 t3 = true -> overl_sv I p sv t2 t3 = true.
+(* sv extends the plan's start times to the unplaced tasks within their bounds, after their co-decided parents *)
+Definition startable_with (I : instance) (p : plan) (sv : task -> Z) : Prop :=
+  (forall t, In t (i_tasks I) -> placed_in I p t = true -> sv t = start_in I p t) /\
+  (forall t, In t (i_tasks I) -> placed_in I p t = false ->
+     lbv I t <= sv t /\ (enforce_for I t = true -> sv t <= t_deadline t)) /\
+  (forall c q, In c (i_tasks I) -> In q (decided_parents I c) -> placed_in I p c = false ->
+     sv c >= sv q + (if placed_in I p q then rt_in I p q + 1 else 0)).
+(* a placed task has all its parents among the decided tasks (otherwise: finding F11-iv) *)
+Definition parents_decided (I : instance) (p : plan) : Prop :=
+  forall c, In c (i_tasks I) -> decided_parents I c <> [] -> placed_in I p c = true ->
+  Z.of_nat (length (decided_parents I c)) = nparents I c.
